@@ -12,6 +12,8 @@ def J(workload, cls, count, per_process=8, bench=False, **params):
 # Situations that make a run non-trivial for a property (any one of them suffices); a property
 # with an empty list counts every run that evaluated its oracle at least once.
 NONTRIVIAL = {
+    "C11": ["C11:sealed_by_size", "C11:sealed_by_timer"],
+    "C12": ["C12:release_with_silent_peer", "C12:released_exactly_at_threshold"],
     "C16": ["C16:concurrent_writers_and_early_waiter"],
     "C02": ["C02:multi_block_commit", "C02:round_gap_in_sequence", "C02:first_block_round_gt_1"],
     "C06": ["C06:with_crash", "C06:async_then_stable"],
@@ -131,6 +133,20 @@ PLANS.update({
         "quick": [J("c19", "x", 32, per_process=2)] + [J("puppet", "d15", 160, per_process=8), J("puppet", "rand", 320, per_process=10)] + cluster_mix(32),
         "thorough": [J("c19", "x", 1024, per_process=8, streams=100)] + [J("puppet", "d15", 8000, per_process=20), J("puppet", "rand", 20000, per_process=20)] + cluster_mix(1000),
     },
+    "C11": {
+        "level": "exploration",
+        "rule": "a real Mempool::spawn with harness peers and a client writing framed transactions (sizes 0, 1, 8, 9, batch_size-1, batch_size, batch_size+1, multiples, random; first byte 0 = benchmark sample marker; bursts and trickles straddling the seal timer; batch_size in {1,10,200,15000}, max_batch_delay in {1,10,100} ms), in BOTH builds (default and --features benchmark); oracle: concatenation of sealed batches in seal order == accepted transactions byte for byte, size/timer seal rule in virtual time, digest == SHA-512/256 of the exact bytes stored and sent, also for received batches with trailing bytes, no panic in the batching path; case class = (build, batch_size, delay, transaction size class)",
+        "assumptions": ["one client connection per scenario", "no connection faults in this workload"],
+        "quick": [J("c11", "x", 32, per_process=2, scenarios=25), J("c11", "x", 32, per_process=2, bench=True, scenarios=25)],
+        "thorough": [J("c11", "x", 1024, per_process=8, scenarios=50), J("c11", "x", 1024, per_process=8, bench=True, scenarios=50)],
+    },
+    "C12": {
+        "level": "exploration",
+        "rule": "a real Mempool::spawn for one authority of a committee of 2..10 (stakes equal / skewed / dominant peer / dominant self / zero-stake members); harness peers acknowledge after random delays, never, or only after their first acknowledgements were cut with the connection; oracle: at the moment an own batch's digest is read from the channel to consensus (and at its store write) the stake of self plus the peers that had WRITTEN the positional acknowledgement of that batch's frame is >= quorum; case class = (n, acknowledgement policies present, self stake)",
+        "assumptions": ["an acknowledgement read by the node implies one written earlier (counting written acks is permissive)"],
+        "quick": [J("c12", "x", 48, per_process=3, scenarios=20), J("c11", "x", 8, per_process=2, scenarios=20)],
+        "thorough": [J("c12", "x", 2048, per_process=16, scenarios=40)],
+    },
     "C14": {
         "level": "fault_enumeration",
         "rule": "a real ReliableSender and a harness peer on the simulated network; 10 base scenarios (1..8 messages, burst or spaced) x every single fault point (first 1..5 connects refused; connection cut before / inside / after every frame in either direction; peer restart at 5 instants; handle dropped while disconnected; peer that stops acknowledging) enumerated completely, then random multi-fault scenarios (up to 12 messages, refused connects, cuts, restarts, per-frame chaos, drops, delayed or missing acknowledgements); a case class is one enumerated fault point, or the fault-kind combination of a random scenario",
@@ -166,6 +182,8 @@ def nontrivial(pid, res, sits):
 
 # Coverage floors: (counter or situation, minimum) that the unchanged tree meets deterministically.
 FLOORS = {
+    "C11": {"quick": {"C11.transactions_conserved_in_order": 10000, "C11.sealed_by_size": 1000, "C11.sealed_by_timer": 500, "C11.received_batches_checked": 100}},
+    "C12": {"quick": {"C12.releases_checked": 2000, "sit:C12:release_with_silent_peer": 10, "sit:C12:released_exactly_at_threshold": 10}},
     "C14": {"quick": {"C14.fault_points_enumerated": 300, "C14.retransmissions_received": 500, "C14.drops_while_disconnected_checked": 20, "C14.resolutions_checked": 5000}},
     "C16": {"quick": {"C16.histories": 400, "C16.key_histories_linearizable": 500, "C16.notify_reads_completed": 1000, "C16.waiters_registered_before_first_write": 100, "C16.reopens_checked": 400}},
     "C17": {"quick": {"C17.evaluations": 1000000, "C17.distributions_checked": 10000}},
@@ -245,6 +263,12 @@ META.update({
     "C10": M("puppet + cluster", "offline pacemaker monitor over round-advance and timeout events vs. certificates held",
              "Rounds strictly increase and chain; each entry into round r+1 is preceded by a valid QC or TC of round r delivered to or assembled by the node; each timeout's high-QC is at least the QC of any block voted and any QC sent before. Runs include jumps over many rounds, TC-only advances, certificates that arrive only inside timeouts or blocks.",
              "A certificate counts as held from the moment its frame became readable by the node (permissive)."),
+    "C11": M("component", "conservation / order / timing / content-addressing oracle over client-side, wire-side and store-side observations of a real mempool, in both feature builds",
+             "Held on the generated loads in both builds: what the client's connection delivered equals the concatenation of the sealed batches, each batch is sealed on crossing the size threshold or within max_batch_delay of its first transaction, and every digest handed to consensus is the hash of the exact bytes in the store.",
+             "Virtual time; one client connection; sizes up to a few batch sizes (40 kB)."),
+    "C12": M("component", "stake-sum oracle over positional acknowledgement frames written by harness peers vs. the release and store-write events",
+             "Held on the generated acknowledgement schedules: no own digest is released or stored before self + acknowledging peers reach the quorum; runs where the release happens exactly at the threshold and with permanently silent peers are counted.",
+             "Peers are harness tasks; real peers' receivers acknowledge every frame, which is the behaviour modelled."),
     "C14": M("component", "fault enumeration on a simulated transport with an offline oracle over hand-over / drop / resolve events and the peer-side frame log",
              "Every single fault point of the base scenarios is enumerated (exhaustive for that finite set), then multi-fault sequences are sampled. Checked: kept messages are received at least once, first receipts in hand-over order, a handle resolves only with the reply to its own message and after that reply was written, messages dropped while disconnected never go out on a later connection, nothing but handed-over messages is ever received as a complete frame.",
              "The simulated transport models resets, refused connects and cuts at frame granularity (before / inside / after a frame); real TCP segmenting and OS errors are not exercised."),
